@@ -34,24 +34,24 @@ Print Assumptions C13_instance_wrapped_growth.
 
 (* ---- the source functions themselves: Gallina translations regenerated from /repo on every run (Gen/Translated.v)
    equal the model functions the theorems above are about, for every input, and never panic ---- *)
-From Trans Require Spec Equiv.
+From Trans Require SpecAckq EquivAckq SpecPow2 EquivPow2.
 
 (* Ackqueue.index with mask = size - 1 is the position modulo the size *)
-Theorem C13_index_is_model : Trans.Spec.T_index.
-Proof. exact Trans.Equiv.index_equiv. Qed.
+Theorem C13_index_is_model : Trans.SpecAckq.T_index.
+Proof. exact Trans.EquivAckq.index_equiv. Qed.
 Print Assumptions C13_index_is_model.
 
 (* Ackqueue.full / empty *)
-Theorem C13_full_empty_is_model : Trans.Spec.T_full_empty.
-Proof. exact Trans.Equiv.full_empty_equiv. Qed.
+Theorem C13_full_empty_is_model : Trans.SpecAckq.T_full_empty.
+Proof. exact Trans.EquivAckq.full_empty_equiv. Qed.
 Print Assumptions C13_full_empty_is_model.
 
 (* powerOfTwo64 is true exactly on the powers of two *)
-Theorem C13_powerOfTwo : Trans.Spec.T_powerOfTwo.
-Proof. exact Trans.Equiv.powerOfTwo_equiv. Qed.
+Theorem C13_powerOfTwo : Trans.SpecPow2.T_powerOfTwo.
+Proof. exact Trans.EquivPow2.powerOfTwo_equiv. Qed.
 Print Assumptions C13_powerOfTwo.
 
 (* roundUpPowerOfTwo64 is the least power of two not below n: every queue capacity is a power of two *)
-Theorem C13_roundUp : Trans.Spec.T_roundUp.
-Proof. exact Trans.Equiv.roundUp_equiv. Qed.
+Theorem C13_roundUp : Trans.SpecPow2.T_roundUp.
+Proof. exact Trans.EquivPow2.roundUp_equiv. Qed.
 Print Assumptions C13_roundUp.
